@@ -202,7 +202,7 @@ def run_job(job, io):
         after = observe(model, viol, site, probes, extra_tree)
         if after != model.vector():
             pass  # mismatches already reported by observe
-        k = '%s|%s|%s' % (before, site.split('#')[0], after)
+        k = '%s|%s|%s' % (before, site, after)  # site carries the nesting depth
         if before != after or 'raise' in site:
             keys.add(k)
         return after
